@@ -39,6 +39,7 @@ RULE = ("per instant t: rt (format then parse the produced text) for 3 formats x
         "nanos-limit stream: acc / millis / parsed texts with fractional seconds on both sides of 2554-07-21T23:34:33 (64-bit nanosecond limit) and at 9999-12-31, ms in {0,1,551,552,709,710,999,random}; "
         "append stream: fmtb = one to three timestamps formatted back to back into ONE output buffer that already holds a random prefix of 0..40 bytes, "
         "capacity exact / one short / just above / far too small; P: prefix preserved, len = prefix + text, refusal leaves the buffer unchanged, every appended range parses back; "
+        "misc stream: local-time formatters (all six cases, in the UTC run and under both other zones), aws_date_time_diff, aws_date_time_init_now against the wall clock, dst accessor on every result; "
         "fractions, zone-designator case variants; W stream: mutated / out-of-range / over-long texts, 2-digit years, short buffers; "
         "non-trivial = case contains at least one successful parse of a non-midnight instant or a non-zero offset")
 
@@ -148,7 +149,8 @@ def expected_parse(text, pf):
     return None
 
 
-_FIELDS = re.compile(r"ts=(-?\d+) ms=(\d+) y=(\d+) mon=(-?\d+) d=(\d+) wd=(-?\d+) h=(\d+) mi=(\d+) s=(\d+)")
+_FIELDS = re.compile(r"ts=(-?\d+) ms=(\d+) y=(\d+) mon=(-?\d+) d=(\d+) wd=(-?\d+) h=(\d+) mi=(\d+) s=(\d+) dst=(\d+)")
+ZONES = {"UTC": (0, "UTC"), "XXX-5:30": (19800, "XXX"), "AAA8": (-28800, "AAA")}   # process TZ -> (seconds east, %Z)
 
 
 def check_fields(line, want_ts, want_ms, errs, what):
@@ -156,7 +158,9 @@ def check_fields(line, want_ts, want_ms, errs, what):
     if not m:
         errs.append(f"{what}: unreadable result line {line!r}")
         return
-    ts, ms, y, mon, d, wd, h, mi, s = map(int, m.groups())
+    ts, ms, y, mon, d, wd, h, mi, s, dst = map(int, m.groups())
+    if dst != 0:
+        errs.append(f"{what}: aws_date_time_dst(UTC) = {dst}, UTC has no daylight saving")
     if ts != want_ts or ms != want_ms:
         errs.append(f"{what}: instant {ts}.{ms:03d} but expected {want_ts}.{want_ms:03d}")
         return
@@ -281,6 +285,25 @@ def oracle(case, lines):
                 parse_result(produced, pf, op, want=(secs - secs % 86400 if short else secs) if produced == text.encode() else None)
             else:
                 parse_result(b"\xff", pf, op)
+        elif t[0] == "lfmt":
+            l = nxt()
+            if l is None:
+                errs.append(f"{op}: missing output"); break
+            off, zn, secs, f, short = int(t[1]), bytes.fromhex(t[2]).decode(), int(t[3]), t[4], t[5] == "short"
+            if not w and f in FMTS and 0 <= secs <= MAXT and 0 <= secs + off <= MAXT:
+                text = py_fmt(secs + off, f, short)         # local wall clock of the fixed-offset zone
+                if f == "rfc822" and not short:
+                    text = text[:-3] + zn                  # %Z in place of "GMT"
+                if l != "P lfmt OK " + hx(text):
+                    errs.append(f"{op}: local-time text {l!r} but expected {text!r} ({hx(text)})")
+        elif t[0] == "diff":
+            l = nxt()
+            if not w and l != f"P diff {int(t[1]) - int(t[2])}":
+                errs.append(f"{op}: aws_date_time_diff gave {l!r}, expected {int(t[1]) - int(t[2])}")
+        elif t[0] == "now":
+            l = nxt()
+            if not w and l != "P now ok":
+                errs.append(f"{op}: aws_date_time_init_now disagrees with the wall clock / its own views: {l!r}")
         elif t[0] == "fmtb":
             cap = int(t[1])
             data = bytes.fromhex(t[2]) if t[2] != "-" else b""
@@ -535,6 +558,25 @@ def append_ops(rng, tier, n):
     return ops
 
 
+def misc_ops(rng, n, tz="UTC"):
+    """entry points beside the main path: local-time formatters (process zone given to the model in the op),
+    aws_date_time_diff, aws_date_time_init_now"""
+    off, zn = ZONES[tz]
+    ops = ["now"]
+    spec = special_instants()
+    for _ in range(n):
+        t = rng.choice(spec) if rng.random() < 0.3 else rng.randint(0, MAXT)
+        if 0 <= t + off <= MAXT:
+            for f in FMTS:
+                for sh in ("full", "short"):
+                    ops.append(f"lfmt {off} {hx(zn)} {t} {f} {sh}")
+        u = rng.choice(spec) if rng.random() < 0.3 else rng.randint(0, MAXT)
+        ops.append(f"diff {t} {u}")
+        ops.append(f"diff {u} {t}")
+    ops += ["diff 0 0", f"diff {MAXT} 0", f"diff 0 {MAXT}", "now"]
+    return ops
+
+
 def designator_ops(rng, n):
     ops = []
     zones = case_variants("z") + case_variants("ut") + case_variants("utc") + case_variants("gmt")
@@ -716,6 +758,7 @@ def gen_cases(rng, tier):
     cases += chunk(edge_offset_ops(rng, tier), 50, {"stream": "edge-offset"})
     cases += chunk(nanos_ops(rng, tier), 50, {"stream": "nanos-limit"})
     cases += chunk(append_ops(rng, tier, 3000 if tier == "quick" else 60000), 40, {"stream": "append"})
+    cases += chunk(misc_ops(rng, 300 if tier == "quick" else 5000), 50, {"stream": "misc"})
     cases += chunk(designator_ops(rng, 20 if tier == "quick" else 200), 50, {"stream": "designator"})
     cases += chunk(fraction_ops(rng, 3000 if tier == "quick" else 30000), 50, {"stream": "fraction"})
     cases += chunk(w_ops(rng, 12000 if tier == "quick" else 200000), 50, {"stream": "w"})
@@ -756,6 +799,7 @@ def gen_cases_tz(rng, tier, tz):
     cases += chunk(offset_ops(rng, "quick"), 50, tags("tz-offset"))
     cases += chunk(edge_offset_ops(rng, "quick", n_inst=2), 50, tags("tz-edge-offset"))
     cases += chunk(append_ops(rng, "quick", 300), 40, tags("tz-append"))
+    cases += chunk(misc_ops(rng, 150, tz), 50, tags("tz-misc"))
     cases += chunk(designator_ops(rng, 2), 50, tags("tz-designator"))
     return cases
 
@@ -810,7 +854,7 @@ def nontrivial(case):
 
 
 def distribution(cases, c_out):
-    d = {"rt": 0, "parse": 0, "fmt": 0, "fmtb": 0, "acc": 0, "millis": 0, "w_ops": 0, "parse_ok": 0, "parse_refused": 0,
+    d = {"rt": 0, "parse": 0, "fmt": 0, "fmtb": 0, "lfmt": 0, "diff": 0, "now": 0, "acc": 0, "millis": 0, "w_ops": 0, "parse_ok": 0, "parse_refused": 0,
          "streams": {}}
     for i, c in enumerate(cases):
         s = c.tags.get("stream", "probe")
